@@ -180,9 +180,9 @@ def cluster(b):
 
 
 SCOPES = {
-    "quick": dict(Convs={100, 117, 120, 88, 111, 99, 115, 37, 102, 101}, FlagSets={0, 1, 2, 3, 5, 6, 10}, Widths={900, 1, 3, 5, 901}, Precs={900, 0, 3},
+    "quick": dict(Convs={100, 117, 120, 88, 111, 99, 115, 37, 102, 101}, FlagSets={0, 1, 2, 3, 5, 6, 10, 14}, Widths={900, 1, 3, 5, 901}, Precs={900, 0, 3},
                   Lens={"", "hh", "l", "ll", "L"}, Shapes={1, 2}, IntIdx={1, 2, 3, 6, 8, 9, 12}),
-    "thorough": dict(Convs={100, 105, 117, 120, 88, 111, 99, 115, 37, 102, 70, 101, 69}, FlagSets=set(range(14)), Widths={900, 1, 5, 12, 40, 901},
+    "thorough": dict(Convs={100, 105, 117, 120, 88, 111, 99, 115, 37, 102, 70, 101, 69}, FlagSets=set(range(15)), Widths={900, 1, 5, 12, 40, 901},
                      Precs={900, 0, 1, 5, 20, 901, 902}, Lens={"", "hh", "h", "l", "ll", "j", "z", "t", "L"}, Shapes={1, 2, 3, 4},
                      IntIdx=set(range(1, 15))),
 }
@@ -256,7 +256,7 @@ def run_c09(prop, tier, seed, workdir):
     rnd = random.Random(seed)
     sc = dict(NSCOPE)
     if tier == "thorough":
-        sc.update(FlagSets=set(range(14)), Widths={900, 5, 40, 901}, Precs={900, 0, 3, 901})
+        sc.update(FlagSets=set(range(15)), Widths={900, 5, 40, 901}, Precs={900, 0, 3, 901})
     sc["Fns"] = {"x"}
     cases, r = gen(workdir, sc, spec="SpecAll")
     pcases = [c for c in cases if c["fn"] != "scan"]
